@@ -11,7 +11,8 @@ from . import C01
 
 GEN_SECTIONS = ["Tables", "Regexes", "Unicode"]
 # code-level corollaries of the leaf ties (lean/Chartparse/Tie/Compose.lean)
-LEAVES = {'TsAt': ['tsat', 'between', 'timeadd'], 'Compose': []}
+LEAVES = {'TsAt': ['tsat', 'between', 'timeadd'], 'Compose': [], 'LoopValid': [], 'LoopEvents': []}
+IMP = ['bpmEventsPostInit', 'syncPostInit']  # functions dumped as terms of the imperative embedding, run against CPython on every run
 TRUSTED = [
     "Lean 4 kernel; axioms ⊆ {propext, Classical.choice, Quot.sound}",
     "hand model of the tempo-map builders and their validators; tied by differential execution with the exact exception class",
